@@ -941,6 +941,7 @@ fn gen_b12(r: &R, thorough: bool) {
 	let recipient = Keypair::from_secret_key(&secp, &SecretKey::from_slice(&[43; 32]).unwrap());
 	let n = if thorough { 240 } else { 40 };
 	let created_at = Duration::from_secs(1_700_000_000);
+	let bud = MetaBudget::new(thorough);
 	let mut signed: Vec<Signed> = vec![];
 	let mut unsigned_streams: Vec<(String, Vec<u8>)> = vec![];
 	for idx in 0..n {
@@ -996,7 +997,7 @@ fn gen_b12(r: &R, thorough: bool) {
 		signed.push(Signed { kind: "invreq", bytes: rbytes_.clone(), tag: 0, root: hex(th.merkle_root().as_ref()), digest: hex(th.as_digest().as_ref()) });
 
 		// --- metadata: what the offer's originator accepts
-		metadata_cases(r, idx, &o, &req, &payer_ek, payer_nonce, payment_id, &secp);
+		metadata_cases(r, idx, &o, &req, &payer_ek, payer_nonce, payment_id, &secp, &bud);
 
 		// --- invoice
 		let npp = 1 + r.below(2);
@@ -1039,7 +1040,7 @@ fn gen_b12(r: &R, thorough: bool) {
 				if th.as_digest().as_ref() != &inv.signable_hash() { bad.push("hook digest != signable_hash".into()); }
 				J::new("b12").s("type", "invoice").n("id", idx).b("ok", bad.is_empty()).b("built", true).strs("why", &bad).s("bytes", &hex(&ib)).emit();
 				signed.push(Signed { kind: "invoice", bytes: ib.clone(), tag: 1, root: hex(th.merkle_root().as_ref()), digest: hex(th.as_digest().as_ref()) });
-				invoice_metadata_cases(r, idx, &ib, payer_key, &recipient, &secp, "LDK Invreq ~~~~~");
+				invoice_metadata_cases(r, idx, &ib, payer_key, &recipient, &secp, "LDK Invreq ~~~~~", "invoice for request: payer keys derived", &bud);
 			},
 		}
 		// --- static invoice (offers with derived keys and paths only)
@@ -1109,7 +1110,7 @@ fn gen_b12(r: &R, thorough: bool) {
 					let th = mh::tagged_hash_from_tlv_stream_bytes(B12_TAGS[1], &ib);
 					J::new("b12").s("type", "refund_invoice").n("id", idx).b("ok", bad.is_empty()).b("built", true).strs("why", &bad).s("bytes", &hex(&ib)).emit();
 					signed.push(Signed { kind: "invoice", bytes: ib.clone(), tag: 1, root: hex(th.merkle_root().as_ref()), digest: hex(th.as_digest().as_ref()) });
-					if derived { invoice_metadata_cases(r, idx, &ib, rkey, &recipient, &secp, if with_path { "LDK Refund v2~~~" } else { "LDK Refund ~~~~~" }); }
+					if derived { invoice_metadata_cases(r, idx, &ib, rkey, &recipient, &secp, if with_path { "LDK Refund v2~~~" } else { "LDK Refund ~~~~~" }, if with_path { "invoice for refund: payer keys derived (paths)" } else { "invoice for refund: explicit payer key, metadata = id+nonce+HMAC" }, &bud); }
 				} else { J::new("b12").s("type", "refund_invoice").n("id", idx).b("ok", false).s("why", &format!("{:?}", rinv.map(|x| x.err()))).emit(); }
 			} else {
 				J::new("b12").s("type", "refund").n("id", idx).b("ok", false).s("why", &format!("{:?}", refund.map(|x| x.err()))).emit();
@@ -1172,32 +1173,57 @@ fn gen_b12(r: &R, thorough: bool) {
 // BOLT 12 stateless metadata scenarios
 // ------------------------------------------------------------------------------------------------
 
-/// Variants of a TLV stream: one record's value changed in one bit, one record removed, one unknown odd
-/// record added (inside `lo..hi` and in the experimental range), restricted to types in `lo..hi`.
-fn alter_stream(bytes: &[u8], lo: u64, hi: u64, exp_type: u64) -> Vec<(String, Vec<u8>)> {
+/// How many objects per verification mode get the exhaustive (every bit of every record) treatment.
+struct MetaBudget { thorough: bool, used: std::cell::RefCell<std::collections::HashMap<String, usize>> }
+impl MetaBudget {
+	fn new(thorough: bool) -> Self { MetaBudget { thorough, used: std::cell::RefCell::new(std::collections::HashMap::new()) } }
+	fn full(&self, mode: &str) -> bool {
+		let mut u = self.used.borrow_mut();
+		let c = u.entry(mode.to_string()).or_insert(0);
+		*c += 1;
+		*c <= if self.thorough { 30 } else { 2 }
+	}
+}
+
+struct Alt { what: String, bytes: Vec<u8>, key_record: bool, sparse: bool }
+
+/// Variants of a TLV stream restricted to record types in `lo..hi`: every single bit of every record's
+/// value (`full`), or for non-key records only two bits per record (`!full`); the records whose type is
+/// in `key_types` (public keys that a derived-key check binds by comparison only) always get every
+/// bit; every record removed; an unknown odd record inserted at the start and at the end of the range
+/// and at each type in `extra_inserts`.
+fn alter_stream(bytes: &[u8], lo: u64, hi: u64, extra_inserts: &[u64], full: bool, key_types: &[u64]) -> Vec<Alt> {
 	let recs = match tlv_records(bytes) { Some(r) => r, None => return vec![] };
 	let mut out = vec![];
 	for &(t, s, vs, e) in recs.iter() {
 		if t < lo || t >= hi { continue; }
-		if e > vs {
+		let is_key = key_types.contains(&t);
+		for bit in 0..(e - vs) * 8 {
+			let (byte, k) = (vs + bit / 8, bit % 8);
+			let sparse = (byte == e - 1 && k == 0) || (byte == vs && k == 4) || (is_key && byte == vs && k == 0);
+			if !(full || is_key || sparse) { continue; }
 			let mut b = bytes.to_vec();
-			b[e - 1] ^= 1;
-			out.push((format!("flip last value bit of type {}", t), b));
-			let mut b = bytes.to_vec();
-			b[vs] ^= 0x10;
-			out.push((format!("flip first value byte of type {}", t), b));
+			b[byte] ^= 1 << k;
+			out.push(Alt { what: format!("flip bit {} of byte {} of the value of type {}", k, byte - vs, t), bytes: b, key_record: is_key, sparse });
 		}
 		let mut b = bytes[..s].to_vec();
 		b.extend_from_slice(&bytes[e..]);
-		out.push((format!("remove type {}", t), b));
+		out.push(Alt { what: format!("remove type {}", t), bytes: b, key_record: is_key, sparse: true });
 	}
-	for (nt, what) in [(hi - 1, "add unknown odd type at end of range"), (exp_type, "add unknown odd experimental type")] {
+	let mut inserts: Vec<u64> = extra_inserts.to_vec();
+	if hi > lo {
+		if let Some(first_odd) = (lo | 1..hi).step_by(2).find(|t| !recs.iter().any(|r| r.0 == *t)) { inserts.push(first_odd); }
+		if let Some(last_odd) = (lo..hi).rev().find(|t| t % 2 == 1 && !recs.iter().any(|r| r.0 == *t)) { inserts.push(last_odd); }
+	}
+	inserts.sort();
+	inserts.dedup();
+	for nt in inserts {
 		if recs.iter().any(|r| r.0 == nt) { continue; }
 		let pos = recs.iter().find(|r| r.0 > nt).map(|r| r.1).unwrap_or(bytes.len());
 		let mut b = bytes[..pos].to_vec();
 		b.extend(tlv_rec(nt, &[1, 2, 3]));
 		b.extend_from_slice(&bytes[pos..]);
-		out.push((format!("{} {}", what, nt), b));
+		out.push(Alt { what: format!("insert unknown odd type {}", nt), bytes: b, key_record: false, sparse: true });
 	}
 	out
 }
@@ -1208,35 +1234,52 @@ fn vreq(req: InvoiceRequest, key: &[u8; 32], nonce: Option<Nonce>, secp: &Secp25
 	match r { Ok(InvoiceRequestVerifiedFromOffer::DerivedKeys(_)) => "DerivedKeys", Ok(InvoiceRequestVerifiedFromOffer::ExplicitKeys(_)) => "Ok", Err(()) => "Err" }
 }
 
-fn metadata_cases(r: &R, idx: usize, o: &OfferOut, req: &InvoiceRequest, payer_ek: &ExpandedKey, payer_nonce: Nonce, payment_id: PaymentId, secp: &Secp256k1<bitcoin::secp256k1::All>) {
+/// Aggregated result of an exhaustive alteration sweep over one object.
+struct Sweep { total: u64, refused: u64, unbuildable: u64, key_record_variants: u64, viol: Vec<String> }
+impl Sweep {
+	fn new() -> Self { Sweep { total: 0, refused: 0, unbuildable: 0, key_record_variants: 0, viol: vec![] } }
+	fn emit(self, idx: usize, check: &str, mode: &str, full: bool) {
+		let ok = self.viol.is_empty();
+		J::new("metasweep").n("id", idx).s("check", check).s("mode", mode).b("full_bits", full).n("total", self.total).n("refused", self.refused)
+			.n("unbuildable", self.unbuildable).n("key_record_variants", self.key_record_variants).raw("violations", format!("[{}]", self.viol.join(","))).b("ok", ok).emit();
+	}
+}
+
+fn metadata_cases(r: &R, idx: usize, o: &OfferOut, req: &InvoiceRequest, payer_ek: &ExpandedKey, payer_nonce: Nonce, payment_id: PaymentId, secp: &Secp256k1<bitcoin::secp256k1::All>, bud: &MetaBudget) {
 	let derived_md = o.kind == OfferKind::DerivedMeta && o.offer.metadata().is_some();
 	let derived_paths = (o.kind == OfferKind::DerivedMeta || o.kind == OfferKind::DerivedPaths) && o.offer.metadata().is_none();
+	let mode = if derived_md { "offer: explicit key, metadata = nonce+HMAC" } else if derived_paths { "offer: keys derived from path nonce" } else { "offer: no derived metadata" };
 	let other_key = r32(r);
 	let other_nonce = Nonce::try_from(&rbytes(r, 16)[..]).unwrap();
-	let emit = |case: &str, check: &str, key: &[u8; 32], nonce: Option<Nonce>, rq: &InvoiceRequest, expect_accept: bool| {
-		let v = guard(|| vreq(rq.clone(), key, nonce, secp)).unwrap_or("PANIC");
+	let emit = |case: &str, check: &str, key: &[u8; 32], nonce: Option<Nonce>, rq: &InvoiceRequest, expect_accept: bool, v: &str| {
 		let ok = if expect_accept { v != "Err" && v != "PANIC" } else { v == "Err" };
-		J::new("meta").n("id", idx).s("check", check).s("case", case).s("key", &hex(key)).s("nonce", &nonce.map(|n| hex(n.as_slice())).unwrap_or_default())
+		J::new("meta").n("id", idx).s("check", check).s("mode", mode).s("case", case).s("key", &hex(key)).s("nonce", &nonce.map(|n| hex(n.as_slice())).unwrap_or_default())
 			.s("stream", &hex(&wbytes(rq))).s("verdict", v).s("expect", if expect_accept { "accept" } else { "refuse" }).b("ok", ok).emit();
 	};
+	let run = |key: &[u8; 32], nonce: Option<Nonce>, rq: &InvoiceRequest| guard(|| vreq(rq.clone(), key, nonce, secp)).unwrap_or("PANIC");
 	if derived_md {
-		emit("own request, own key", "offer_md", &o.key, None, req, true);
-		emit("own request, another node's key", "offer_md", &other_key, None, req, false);
+		emit("own request, own key", "offer_md", &o.key, None, req, true, run(&o.key, None, req));
+		emit("own request, another node's key", "offer_md", &other_key, None, req, false, run(&other_key, None, req));
+		emit("own request, checked as if keys were path-derived", "offer_rd", &o.key, Some(o.nonce), req, false, run(&o.key, Some(o.nonce), req));
 	} else if derived_paths {
-		emit("own request, own key and path nonce", "offer_rd", &o.key, Some(o.nonce), req, true);
-		emit("own request, another node's key", "offer_rd", &other_key, Some(o.nonce), req, false);
-		emit("own request, wrong path nonce", "offer_rd", &o.key, Some(other_nonce), req, false);
-		emit("own request, metadata check without nonce", "offer_md", &o.key, None, req, false);
+		emit("own request, own key and path nonce", "offer_rd", &o.key, Some(o.nonce), req, true, run(&o.key, Some(o.nonce), req));
+		emit("own request, another node's key", "offer_rd", &other_key, Some(o.nonce), req, false, run(&other_key, Some(o.nonce), req));
+		emit("own request, wrong path nonce", "offer_rd", &o.key, Some(other_nonce), req, false, run(&o.key, Some(other_nonce), req));
+		emit("own request, metadata check without nonce", "offer_md", &o.key, None, req, false, run(&o.key, None, req));
 	} else {
-		emit("offer without derived metadata", "offer_md", &o.key, None, req, false);
+		emit("offer without derived metadata", "offer_md", &o.key, None, req, false, run(&o.key, None, req));
+		emit("offer without derived metadata, path check", "offer_rd", &o.key, Some(o.nonce), req, false, run(&o.key, Some(o.nonce), req));
 	}
 	if !(derived_md || derived_paths) { return; }
-	// valid requests built against altered copies of the offer
+	// valid requests built against altered copies of the offer: every record, every bit (see alter_stream)
+	let full = bud.full(mode);
+	let (check, nonce) = if derived_md { ("offer_md", None) } else { ("offer_rd", Some(o.nonce)) };
 	let ob = wbytes(&o.offer);
-	let mut built = 0;
-	for (what, ab) in alter_stream(&ob, 1, 80, 1_000_000_001) {
-		if built >= 10 { break; }
-		let alt = match guard(|| Offer::try_from(ab.clone())) { Ok(Ok(a)) => a, _ => continue };
+	let mut sw = Sweep::new();
+	let mut individual = 0;
+	let mut individual_key = 0;
+	for alt_s in alter_stream(&ob, 1, 80, &[1_000_000_001, 1_999_999_999], full, &[22]) {
+		let alt = match guard(|| Offer::try_from(alt_s.bytes.clone())) { Ok(Ok(a)) => a, _ => { sw.unbuildable += 1; continue } };
 		if alt == o.offer { continue; }
 		let rq = guard(|| -> Result<InvoiceRequest, ()> {
 			let mut b = alt.request_invoice(payer_ek, payer_nonce, secp, payment_id).map_err(|_| ())?;
@@ -1247,11 +1290,21 @@ fn metadata_cases(r: &R, idx: usize, o: &OfferOut, req: &InvoiceRequest, payer_e
 			}
 			b.build_and_sign().map_err(|_| ())
 		});
-		let rq = match rq { Ok(Ok(q)) => q, _ => continue };
-		built += 1;
-		if derived_md { emit(&format!("request against altered offer: {}", what), "offer_md", &o.key, None, &rq, false); }
-		else { emit(&format!("request against altered offer: {}", what), "offer_rd", &o.key, Some(o.nonce), &rq, false); }
+		let rq = match rq { Ok(Ok(q)) => q, _ => { sw.unbuildable += 1; continue } };
+		let v = run(&o.key, nonce, &rq);
+		sw.total += 1;
+		if alt_s.key_record { sw.key_record_variants += 1; }
+		if v == "Err" { sw.refused += 1; } else if sw.viol.len() < 3 {
+			sw.viol.push(format!("{{\"case\":{},\"key\":{},\"nonce\":{},\"offer\":{},\"stream\":{},\"verdict\":{}}}", jstr(&format!("request against altered offer: {}", alt_s.what)), jstr(&hex(&o.key)), jstr(&nonce.map(|n| hex(n.as_slice())).unwrap_or_default()), jstr(&hex(&alt_s.bytes)), jstr(&hex(&wbytes(&rq))), jstr(v)));
+		}
+		// individual records (for the model comparison): the sparse set and some key-record variants
+		let want_individual = if alt_s.key_record { individual_key < 6 } else { alt_s.sparse && individual < 10 };
+		if want_individual || v != "Err" {
+			if alt_s.key_record { individual_key += 1 } else { individual += 1 }
+			emit(&format!("request against altered offer: {}", alt_s.what), check, &o.key, nonce, &rq, false, v);
+		}
 	}
+	sw.emit(idx, check, mode, full);
 }
 
 /// Replace what a recipient could replace in an invoice it signs itself: strip the signature, alter,
@@ -1270,26 +1323,44 @@ fn resign(bytes_altered: &[u8], recipient: &Keypair, secp: &Secp256k1<bitcoin::s
 	Some(out)
 }
 
-fn invoice_metadata_cases(r: &R, idx: usize, ib: &[u8], payer_key: [u8; 32], recipient: &Keypair, secp: &Secp256k1<bitcoin::secp256k1::All>, iv: &str) {
+fn invoice_metadata_cases(r: &R, idx: usize, ib: &[u8], payer_key: [u8; 32], recipient: &Keypair, secp: &Secp256k1<bitcoin::secp256k1::All>, iv: &str, mode: &str, bud: &MetaBudget) {
 	let other_key = r32(r);
-	let emit = |case: &str, key: &[u8; 32], bytes: &[u8], expect: &str| {
-		let v = guard(|| match Bolt12Invoice::try_from(bytes.to_vec()) { Ok(i) => match i.verify_using_metadata(&ExpandedKey::new(*key), secp) { Ok(_) => "Ok", Err(()) => "Err" }, Err(_) => "ParseErr" }).unwrap_or("PANIC");
+	let run = |key: &[u8; 32], bytes: &[u8]| guard(|| match Bolt12Invoice::try_from(bytes.to_vec()) { Ok(i) => match i.verify_using_metadata(&ExpandedKey::new(*key), secp) { Ok(_) => "Ok", Err(()) => "Err" }, Err(_) => "ParseErr" }).unwrap_or("PANIC");
+	let emit = |case: &str, key: &[u8; 32], bytes: &[u8], expect: &str, v: &str| {
 		let ok = match expect { "accept" => v == "Ok", "refuse" => v == "Err", _ => v != "PANIC" };
-		J::new("meta").n("id", idx).s("check", "payer").s("iv", iv).s("case", case).s("key", &hex(key)).s("stream", &hex(bytes)).s("verdict", v).s("expect", expect).b("ok", ok).emit();
+		J::new("meta").n("id", idx).s("check", "payer").s("mode", mode).s("iv", iv).s("case", case).s("key", &hex(key)).s("stream", &hex(bytes)).s("verdict", v).s("expect", expect).b("ok", ok).emit();
 	};
-	emit("own invoice, own key", &payer_key, ib, "accept");
-	emit("own invoice, another node's key", &other_key, ib, "refuse");
-	let mut n = 0;
-	for (what, ab) in alter_stream(ib, 0, 160, 1_000_000_001).into_iter().chain(alter_stream(ib, 2_000_000_000, 3_000_000_000, 2_000_000_001)) {
-		if n >= 10 { break; }
-		let rs = match resign(&ab, recipient, secp) { Some(x) => x, None => continue };
-		match guard(|| Bolt12Invoice::try_from(rs.clone())) { Ok(Ok(_)) => {}, _ => continue };
-		n += 1;
-		emit(&format!("invoice re-signed by the recipient over altered request fields: {}", what), &payer_key, &rs, "refuse");
+	emit("own invoice, own key", &payer_key, ib, "accept", run(&payer_key, ib));
+	emit("own invoice, another node's key", &other_key, ib, "refuse", run(&other_key, ib));
+	// Only invoices the harness can re-sign (signed by `recipient`) can be altered into valid invoices.
+	let resignable = match resign(ib, recipient, secp) { Some(rs) => matches!(guard(|| Bolt12Invoice::try_from(rs)), Ok(Ok(_))), None => false };
+	if !resignable { return; }
+	let full = bud.full(mode);
+	let mut sw = Sweep::new();
+	let mut individual = 0;
+	let mut individual_key = 0;
+	let alts = alter_stream(ib, 0, 160, &[1_000_000_001, 1_999_999_999], full, &[22, 88]).into_iter()
+		.chain(alter_stream(ib, 1_000_000_000, 3_000_000_000, &[2_000_000_001], full, &[]));
+	for alt_s in alts {
+		let rs = match resign(&alt_s.bytes, recipient, secp) { Some(x) => x, None => { sw.unbuildable += 1; continue } };
+		match guard(|| Bolt12Invoice::try_from(rs.clone())) { Ok(Ok(_)) => {}, _ => { sw.unbuildable += 1; continue } };
+		let v = run(&payer_key, &rs);
+		sw.total += 1;
+		if alt_s.key_record { sw.key_record_variants += 1; }
+		let case = format!("invoice re-signed by the recipient over altered request fields: {}", alt_s.what);
+		if v == "Err" { sw.refused += 1; } else if sw.viol.len() < 3 {
+			sw.viol.push(format!("{{\"case\":{},\"key\":{},\"iv\":{},\"stream\":{},\"verdict\":{}}}", jstr(&case), jstr(&hex(&payer_key)), jstr(iv), jstr(&hex(&rs)), jstr(v)));
+		}
+		let want_individual = if alt_s.key_record { individual_key < 6 } else { alt_s.sparse && individual < 10 };
+		if want_individual || v != "Err" {
+			if alt_s.key_record { individual_key += 1 } else { individual += 1 }
+			emit(&case, &payer_key, &rs, "refuse", v);
+		}
 	}
+	sw.emit(idx, "payer", mode, full);
 	// the recipient's own fields (160..240) are not bound by the payer metadata: recorded for the model comparison only
-	for (what, ab) in alter_stream(ib, 160, 240, 3_000_000_001).into_iter().take(4) {
-		if let Some(rs) = resign(&ab, recipient, secp) { if let Ok(Ok(_)) = guard(|| Bolt12Invoice::try_from(rs.clone())) { emit(&format!("recipient's own invoice field changed: {}", what), &payer_key, &rs, "unbound"); } }
+	for alt_s in alter_stream(ib, 160, 240, &[3_000_000_001], false, &[]).into_iter().take(4) {
+		if let Some(rs) = resign(&alt_s.bytes, recipient, secp) { if let Ok(Ok(_)) = guard(|| Bolt12Invoice::try_from(rs.clone())) { emit(&format!("recipient's own invoice field changed: {}", alt_s.what), &payer_key, &rs, "unbound", run(&payer_key, &rs)); } }
 	}
 }
 
